@@ -103,6 +103,27 @@ M = [
     ('A25 betweenness_bin rebound by a later def', 'betw', 'bct/algorithms/centrality.py',
      'def module_degree_zscore(W, ci, flag=0):', 'def betweenness_bin(G):\n    return G\n\n\ndef module_degree_zscore(W, ci, flag=0):',
      ['betweenness_bin', '2 times']),
+    ('A26 cuberoot aliased in clustering.py', 'clust', 'bct/algorithms/clustering.py',
+     'from bct.utils import cuberoot, BCTParamError, dummyvar, binarize, get_rng\n',
+     'from bct.utils import BCTParamError, dummyvar, binarize, get_rng\nfrom bct.utils import invert as cuberoot\n',
+     ['clustering_coef_wd', 'cuberoot', 'renaming import']),
+    ('A27 cuberoot rebound inside transitivity_wu', 'clust', 'bct/algorithms/clustering.py',
+     '    K = np.sum(np.logical_not(W == 0), axis=1)\n    ws = cuberoot(W)\n    cyc3 = np.diag(np.dot(ws, np.dot(ws, ws)))\n    return',
+     '    cuberoot = np.sqrt\n    K = np.sum(np.logical_not(W == 0), axis=1)\n    ws = cuberoot(W)\n    cyc3 = np.diag(np.dot(ws, np.dot(ws, ws)))\n    return',
+     ['transitivity_wu', 'cuberoot']),
+    ('A28 binarize aliased in efficiency.py', 'eff', 'bct/algorithms/efficiency.py',
+     'from bct.utils import cuberoot, BCTParamError, binarize, invert\n', 'from bct.utils import cuberoot, BCTParamError, invert\nfrom bct.utils import invert as binarize\n',
+     ['efficiency_bin', 'binarize', 'renaming import']),
+    ('A29 binarize rebound inside the (not extracted) local branch of efficiency_bin', 'eff', 'bct/algorithms/efficiency.py',
+     '        E = np.zeros((n,))  # local efficiency\n', '        E = np.zeros((n,))  # local efficiency\n        binarize = None\n',
+     ['efficiency_bin', 'binarize', 'bound inside efficiency_bin']),
+    ('A30 np.mean replaced by a module-level store (charpath)', 'char', 'bct/algorithms/distance.py',
+     'import numpy as np\n', 'import numpy as np\nnp.mean = np.median\n',
+     ['charpath', 'stores into an attribute of the numpy module']),
+    ('A31 linalg of pagerank_centrality imported from numpy', 'walks', 'bct/algorithms/centrality.py',
+     '    from scipy import linalg\n\n    N = len(A)\n', '    from numpy import linalg\n\n    N = len(A)\n', []),
+    ('A32 len rebound in distance.py (mean_first_passage_time)', 'walks', 'bct/algorithms/distance.py',
+     'import numpy as np\n', 'import numpy as np\nlen = max\n', ['mean_first_passage_time', 'len']),
     # resolution is fine, the definition is not the recognised one: no `problems` entry, the Lean obligation of the primitive fails
     ('L01 body of get_rng changed (a generator passed as seed is re-seeded)', 'util', 'bct/utils/miscellaneous_utilities.py',
      '    elif isinstance(seed, np.random.RandomState):\n        return seed\n', '    elif isinstance(seed, np.random.RandomState):\n        return np.random.RandomState(0)\n',
@@ -111,6 +132,10 @@ M = [
      '    W[W != 0] = 1\n', '    W[W > 0] = 1\n', []),
     ('L03 body of binarize changed (seen through get_components)', 'comp', 'bct/utils/other.py',
      '    W[W != 0] = 1\n', '    W[W > 0] = 1\n', []),
+    ('L05 body of binarize changed (seen through efficiency_bin)', 'eff', 'bct/utils/other.py',
+     '    W[W != 0] = 1\n', '    W[W > 0] = 1\n', []),
+    ('L04 body of cuberoot changed (seen through the weighted clustering routines)', 'clust', 'bct/utils/miscellaneous_utilities.py',
+     '    return np.sign(x) * np.abs(x)**(1 / 3)\n', '    return np.abs(x)**(1 / 3)\n', []),
 ]
 
 
